@@ -1363,3 +1363,113 @@ Proof.
   exists (mkMod [IClass (mkCls 1 None [mkMeth 1 KPlain 1 [AEv 1]] [])] [] [] [ACall (RCls 1) 1 1]).
   repeat split; try reflexivity. vm_compute. discriminate.
 Qed.
+
+(* ============================================================================================== *)
+(* Part D : equal numberings = same binding pattern (alpha-equivalence)                            *)
+(* ============================================================================================== *)
+Lemma index_of_app x l ext i : index_of x l = Some i -> index_of x (l ++ ext) = Some i.
+Proof.
+  revert i. induction l as [|y tl IH]; intros i; simpl; [discriminate|].
+  destruct (Nat.eqb x y); auto.
+  destruct (index_of x tl) as [j|]; simpl; [|discriminate]. intros H. rewrite (IH j eq_refl). exact H.
+Qed.
+Lemma index_of_nth x l i : index_of x l = Some i -> nth_error l i = Some x.
+Proof.
+  revert i. induction l as [|y tl IH]; intros i; simpl; [discriminate|].
+  destruct (Nat.eqb x y) eqn:E.
+  - intros H; inversion H; subst. apply Nat.eqb_eq in E. subst. reflexivity.
+  - destruct (index_of x tl) as [j|]; simpl; [|discriminate]. intros H; inversion H; subst. simpl. auto.
+Qed.
+Lemma index_of_new x l : index_of x l = None -> index_of x (l ++ [x]) = Some (length l).
+Proof.
+  induction l as [|y tl IH]; simpl.
+  - rewrite Nat.eqb_refl. reflexivity.
+  - destruct (Nat.eqb x y); [discriminate|].
+    destruct (index_of x tl); [discriminate|]. intros _. rewrite IH; reflexivity.
+Qed.
+
+(* the final list of first occurrences, and what every position of the numbering holds *)
+Definition pos_ok (keep final : list name) (t : tok) (c : ctok) : Prop :=
+  match t with
+  | TK k => c = CK k
+  | TN x _ => if nmem x keep then c = CKeep x else exists r, c = CIdx r /\ index_of x final = Some r
+  end.
+
+Lemma canon_spec keep : forall l seen,
+  exists final, (exists ext, final = seen ++ ext) /\ Forall2 (pos_ok keep final) l (canon_go keep seen l).
+Proof.
+  induction l as [|t tl IH]; intros seen.
+  - exists seen. split; [exists []; rewrite app_nil_r; reflexivity|constructor].
+  - destruct t as [k|x b]; simpl.
+    + destruct (IH seen) as [final [Hext HF]]. exists final. split; [exact Hext|]. constructor; [reflexivity|exact HF].
+    + destruct (nmem x keep) eqn:Ek.
+      * destruct (IH seen) as [final [Hext HF]]. exists final. split; [exact Hext|].
+        constructor; [simpl; rewrite Ek; reflexivity|exact HF].
+      * destruct (index_of x seen) as [i|] eqn:Ei.
+        -- destruct (IH seen) as [final [[ext Hext] HF]]. exists final. split; [exists ext; exact Hext|].
+           constructor; [|exact HF]. simpl. rewrite Ek. exists i. split; [reflexivity|].
+           subst final. apply index_of_app. exact Ei.
+        -- destruct (IH (seen ++ [x])) as [final [[ext Hext] HF]]. exists final.
+           split; [exists ([x] ++ ext); rewrite Hext, <- app_assoc; reflexivity|].
+           constructor; [|exact HF]. simpl. rewrite Ek. exists (length seen). split; [reflexivity|].
+           subst final. apply index_of_app. apply index_of_new. exact Ei.
+Qed.
+
+Lemma Forall2_len {A B} (R : A -> B -> Prop) l m : Forall2 R l m -> length l = length m.
+Proof. induction 1; simpl; auto. Qed.
+
+(* T02k_duplicate_alpha: when two functions get the same numbering, they have the same node types and
+   plain fields at every position, the same preserved (free) names at the same positions, and their
+   other names follow the same pattern: two occurrences in f are the same name iff the occurrences at
+   the same positions in g are.  That is: g is f with its bound names renamed one-to-one. *)
+Theorem duplicate_alpha keep1 keep2 l1 l2 :
+  canon_go keep1 [] l1 = canon_go keep2 [] l2 ->
+  length l1 = length l2 /\
+  (forall i k, nth_error l1 i = Some (TK k) -> nth_error l2 i = Some (TK k)) /\
+  (forall i x b, nth_error l1 i = Some (TN x b) -> nmem x keep1 = true ->
+                 exists b', nth_error l2 i = Some (TN x b') /\ nmem x keep2 = true) /\
+  (forall i j x b x' b', nth_error l1 i = Some (TN x b) -> nth_error l1 j = Some (TN x' b') ->
+      nmem x keep1 = false -> nmem x' keep1 = false ->
+      exists y c y' c', nth_error l2 i = Some (TN y c) /\ nth_error l2 j = Some (TN y' c') /\
+                        nmem y keep2 = false /\ nmem y' keep2 = false /\ (x = x' <-> y = y')).
+Proof.
+  intros E.
+  destruct (canon_spec keep1 l1 []) as [f1 [_ H1]]. destruct (canon_spec keep2 l2 []) as [f2 [_ H2]].
+  rewrite E in H1. set (cl := canon_go keep2 [] l2) in *.
+  assert (Hlen : length l1 = length l2).
+  { rewrite (Forall2_len _ _ _ H1), (Forall2_len _ _ _ H2). reflexivity. }
+  assert (P1 : forall i t, nth_error l1 i = Some t -> exists c, nth_error cl i = Some c /\ pos_ok keep1 f1 t c).
+  { clear -H1. induction H1; intros [|i] t Hn; simpl in *; try discriminate; eauto. inversion Hn; subst; eauto. }
+  assert (P2 : forall i c, nth_error cl i = Some c -> exists t, nth_error l2 i = Some t /\ pos_ok keep2 f2 t c).
+  { clear -H2. induction H2; intros [|i] c Hn; simpl in *; try discriminate; eauto. inversion Hn; subst; eauto. }
+  split; [exact Hlen|]. split; [|split].
+  - intros i k Hi. destruct (P1 i _ Hi) as [c [Hc Hp]]. simpl in Hp. subst c.
+    destruct (P2 i _ Hc) as [t [Ht Hp]]. destruct t as [k'|y b]; simpl in Hp.
+    + inversion Hp; subst. exact Ht.
+    + destruct (nmem y keep2); [discriminate|destruct Hp as [r [Hr _]]; discriminate].
+  - intros i x b Hi Hk. destruct (P1 i _ Hi) as [c [Hc Hp]]. simpl in Hp. rewrite Hk in Hp. subst c.
+    destruct (P2 i _ Hc) as [t [Ht Hp]]. destruct t as [k'|y b']; simpl in Hp; [discriminate|].
+    destruct (nmem y keep2) eqn:Ey; [inversion Hp; subst; eauto|destruct Hp as [r [Hr _]]; discriminate].
+  - intros i j x b x' b' Hi Hj Hk Hk'.
+    destruct (P1 i _ Hi) as [c [Hc Hp]]. simpl in Hp. rewrite Hk in Hp. destruct Hp as [r [-> Hr]].
+    destruct (P1 j _ Hj) as [c' [Hc' Hp']]. simpl in Hp'. rewrite Hk' in Hp'. destruct Hp' as [r' [-> Hr']].
+    destruct (P2 i _ Hc) as [t [Ht Hp]]. destruct t as [k|y cb]; simpl in Hp; [discriminate|].
+    destruct (nmem y keep2) eqn:Ey; [discriminate|]. destruct Hp as [q [Hq Hy]]. inversion Hq; subst q.
+    destruct (P2 j _ Hc') as [t' [Ht' Hp']]. destruct t' as [k|y' cb']; simpl in Hp'; [discriminate|].
+    destruct (nmem y' keep2) eqn:Ey'; [discriminate|]. destruct Hp' as [q' [Hq' Hy']]. inversion Hq'; subst q'.
+    exists y, cb, y', cb'. repeat split; auto.
+    + intros ->. rewrite Hr in Hr'. inversion Hr'; subst r'.
+      apply index_of_nth in Hy. apply index_of_nth in Hy'. congruence.
+    + intros ->. rewrite Hy in Hy'. inversion Hy'; subst r'.
+      apply index_of_nth in Hr. apply index_of_nth in Hr'. congruence.
+Qed.
+
+(* the code before repair 3c7e4a0 abstracted the free names as well: f calls len, g calls sum *)
+Theorem duplicate_old_refuted :
+  exists f g, dup_eqb_old [] f g = true /\ dup_eqb [] f g = false /\
+              exists i x y, nth_error f i = Some (TN x false) /\ nth_error g i = Some (TN y false) /\ x <> y
+                            /\ nmem x (bound_names f) = false /\ nmem y (bound_names g) = false.
+Proof.
+  exists [TK 0; TN 9 true; TN 1 true; TK 1; TN 5 false; TN 1 false], [TK 0; TN 8 true; TN 1 true; TK 1; TN 6 false; TN 1 false].
+  split; [reflexivity|]. split; [reflexivity|]. exists 4, 5, 6. repeat split; try reflexivity. discriminate.
+Qed.
